@@ -123,7 +123,9 @@ CLAIMED = {
              'datum is rejected; overwrite never is; a file naming one group twice is rejected and distinct names are all accepted; ORDER-FREENESS of '
              'the Cp table and the valid range: a table is accepted iff its data agree with what is there, whether two files are both accepted does '
              'not depend on their order, and when they are the merged table is the same map and the merged range the same interval (for the '
-             'reference values H, S and whole include trees order-freeness is decided by the tree oracle). '
+             'reference values H, S and whole include trees order-freeness is decided by the tree oracle). IDEMPOTENCE: merging the same correlation a second '
+             'time succeeds and returns the identical correlation - table, range, reference enthalpy and entropy, re-fit (C13_update_twice, for any '
+             'reflexive isclose). '
              'Tie: correspondence of update sequences (state after every step) and of include trees; direct oracle: union / conflict / '
              'atomicity / idempotence on sequences, and all include orders and nestings (star, chain) of split data loading to equal contents.',
         design='5 / C13',
@@ -185,8 +187,10 @@ CLAIMED = {
              '(map (map phi) (matches f m)) - proved through a general component-embedding theorem (atoms, bonds, neighbourhoods, ring membership, '
              'ring counts, stereo atoms are carried along). Plus: the order-dependence of the Benson aromatisation on fused alternating rings as a '
              'refutation witness (known finding), its independence of start atom/direction for a single ring (finite), set-based descriptor '
-             'counting. PARTIAL: the lift from matches to the descriptor dictionary and RDKit producing isomorphic prepared graphs for equivalent '
-             'spellings are decided on the implementation on every run: all atom permutations for <=6 heavy atoms, random renumberings and random '
+             'counting. Dictionary level (C03_descriptors_renumbering): for every scheme with reader-produced prefix-free patterns and a chain-free remap '
+             'table, the returned descriptor dictionary (centre assignment, group naming, distinct-set descriptor counts, remaps, '
+             'groups.update(descriptors)) of the renumbered prepared graph is the same map. PARTIAL only in that RDKit producing isomorphic prepared '
+             'graphs for equivalent spellings is external; it is decided on the implementation on every run: all atom permutations for <=6 heavy atoms, random renumberings and random '
              'SMILES, Kekule form, explicit hydrogens, molecule object - identical descriptors or identical failure.',
         design='5 / C03',
         note=TB + 'Closed under the global context. RDKit producing isomorphic prepared graphs for equivalent spellings is external.',
@@ -196,8 +200,11 @@ CLAIMED = {
              'one: finite theorem on the regenerated scheme files) and all well-formed component graphs, the matches of the pattern in the mixture '
              '(disjoint union) are exactly the matches in the first component together with the shifted matches in the second, each once '
              '(Permutation; match counts add) - a match never straddles components and is not influenced by the other component; reader-accepted '
-             'fragments are proved connected. Descriptor totals add entry-wise. PARTIAL: the lift from matches to the descriptor dictionary (centre '
-             'assignment, naming, remaps) is decided on the implementation on every run: stress pairs in both orders, random pairs, self-pairs and '
+             'fragments are proved connected. Dictionary level: centre names of the mixture are those of the components (C04_centres_of_mixture), the group '
+             'counts and the correction-descriptor counts of the mixture are the entry-wise sums after remaps (C04_groups_additive, '
+             'C04_correction_descriptors_additive), and the returned dictionary is the sum whenever no occurring correction-descriptor name is also an '
+             'occurring group name (C04_descriptors_additive; groups.update(descriptors) replaces). PARTIAL only in the RDKit front end (ring list of a '
+             'disconnected molecule = union of the components\' ring lists); decided on the implementation on every run: stress pairs in both orders, random pairs, self-pairs and '
              'triples incl. undecomposable components.',
         design='5 / C04',
         note=TB + 'Closed under the global context.',
